@@ -630,6 +630,46 @@ def enum_variant(enums, segs):
 
 
 # ---------------------------------------------------------------- generic summaries
+def sum_try_branch_option(ex, st, func, args, dest_ty):
+    """<Option<T> as Try>::branch(o) : Some(v) -> Continue(v) ; None -> Break(None)"""
+    o = args[0]
+    if not isinstance(o, ObjV): return None
+    d = ex.discr(st, o); out = []
+    for dv in (1, 0):
+        c = d.t == dv
+        if not ex.feasible(st, c): continue
+        s2 = st.clone(); s2.pc.append(c)
+        oid = s2.new_obj(s2.fresh_name('cf'), dest_ty)
+        if dv == 1:
+            s2.heap[oid]['discr'] = BV(z3.BitVecVal(0, 64), True)
+            s2.heap[oid][('f', 'Continue', 0)] = ex.load(s2, o.oid, ('f', 'Some', 0), 'opaque')
+        else:
+            s2.heap[oid]['discr'] = BV(z3.BitVecVal(1, 64), True)
+            res = s2.new_obj(s2.fresh_name('residual'), 'Option<Infallible>'); s2.heap[res]['discr'] = BV(z3.BitVecVal(0, 64), True)
+            s2.heap[oid][('f', 'Break', 0)] = ObjV(res)
+        out.append((s2, ObjV(oid)))
+    return out
+
+def sum_from_residual_option(ex, st, func, args, dest_ty):
+    oid = st.new_obj(st.fresh_name('none'), dest_ty); st.heap[oid]['discr'] = BV(z3.BitVecVal(0, 64), True)
+    return [(st, ObjV(oid))]
+
+def sum_result_ok(ex, st, func, args, dest_ty):
+    """Result::ok / Result::err : Ok(v) -> Some(v) / None ..."""
+    r = args[0]
+    if not isinstance(r, ObjV): return None
+    which = func.rsplit('::', 1)[1]
+    d = ex.discr(st, r).t; out = []
+    for dv in (0, 1):
+        if not ex.feasible(st, d == dv): continue
+        s2 = st.clone(); s2.pc.append(d == dv)
+        oid = s2.new_obj(s2.fresh_name('opt'), dest_ty)
+        keep = (dv == 0) == (which == 'ok')
+        s2.heap[oid]['discr'] = BV(z3.BitVecVal(1 if keep else 0, 64), True)
+        if keep: s2.heap[oid][('f', 'Some', 0)] = ex.load(s2, r.oid, ('f', 'Ok' if dv == 0 else 'Err', 0), 'opaque')
+        out.append((s2, ObjV(oid)))
+    return out
+
 def sum_try_branch(ex, st, func, args, dest_ty):
     """<Result<T,E> as Try>::branch(r) : Ok(v) -> Continue(v) ; Err(e) -> Break(Err(e))"""
     r = args[0]
@@ -739,11 +779,14 @@ def sum_unwrap_or_default_int(ex, st, func, args, dest_ty):
     return [(st, BV(z3.If(d == 1, p.t, dflt), sg))]
 
 GENERIC = [
+    (r'^<Option<.*> as Try>::branch$|^<std::option::Option<.*> as Try>::branch$', sum_try_branch_option),
+    (r'^<Option<.*> as FromResidual<Option<.*>>>::from_residual$|^<std::option::Option<.*> as FromResidual<.*Option<.*>>>::from_residual$', sum_from_residual_option),
+    (r'^Result::<.*>::ok$|^Result::<.*>::err$|^std::result::Result::<.*>::(ok|err)$', sum_result_ok),
     (r'Option::<.*>::is_some$|Option::<.*>::is_none$|Result::<.*>::is_ok$|Result::<.*>::is_err$', sum_is_variant),
     (r'Option::<\w+>::unwrap_or_default$|Option::<\w+>::unwrap_or$', sum_unwrap_or_default_int),
     (r'Result::<.*>::map_err::<', sum_map_err),
     (r' as PartialEq>::(eq|ne)$', sum_fieldless_eq),
-    (r' as Try>::branch$', sum_try_branch),
+    (r'^<Result<.*> as Try>::branch$|^<std::result::Result<.*> as Try>::branch$', sum_try_branch),
     (r' as FromResidual<.*>>::from_residual$', sum_from_residual),
     (r' as Deref>::deref$| as DerefMut>::deref_mut$', sum_identity_deref),
 ]
